@@ -16,6 +16,7 @@ ABS = {   # alias -> regex : abstract callees of the pool-level units
     'tq_push': r'^std::queue<cocls::function<void \(\), 64ul>.*::push\(cocls::function<void \(\), 64ul>&&\)$', 'tq_empty': r'^std::queue<cocls::function<void \(\), 64ul>.*::empty\(\) const$',
     'tq_front': r'^std::queue<cocls::function<void \(\), 64ul>.*::front\(\)$', 'tq_pop': r'^std::queue<cocls::function<void \(\), 64ul>.*::pop\(\)$',
     'tq_swap': r'^std::queue<cocls::function<void \(\), 64ul>.*::swap\(std::queue<',
+    'tq_size': r'^std::queue<cocls::function<void \(\), 64ul>.*::size\(\) const$',      # not used by the unchanged text; modelled so that a rewrite that tests the length is decided (seed C11-6)
     'tq_move_assign': r'^std::queue<cocls::function<void \(\), 64ul>.*::operator=\(std::queue<.*&&\)$',   # not used by the unchanged text; modelled so that a rewrite through it is decided
     'tv_ctor': rx(TVT + '::vector()'), 'tv_dtor': rx(TVT + '::~vector()'), 'tv_begin': rx(TVT + '::begin()'), 'tv_end': rx(TVT + '::end()'),
     'tv_swap': r'^void std::swap<std::thread, std::allocator<std::thread> >\(',
